@@ -1,3 +1,188 @@
-/-! # C07 — property theorems (to be written) -/
+import BddVerif.Props.C17
+import BddVerif.Lemmas.Substitute
+/-!
+# C07 — substitution equals syntactic replacement of a variable by a function
+
+About the executable model `Model/Substitute.lean` (tied to the Rust code by the stream `C07.sub`):
+for all valid diagrams `f`, `g` over the same `n < 65535` variables and every variable `x`,
+`f.substitute(x, g)` is `ok r` — never a panic — with `r` valid over `n` variables and
+`r(v) = f(v[x := g(v)])`, also when `g` depends on `x` and on variables `f` does not mention.
+
+The proof is unconditional: the nested `and`+`exists` step is `B.nestedApply_eq_canon`
+(`Lemmas/NestedSim.lean`, property C03), the `iff` step is `applyWithFlip_eq_canon` (C01), the shifts
+are `rename_variables_safe` / `set_num_vars_safe` (C17).
+-/
 namespace B.Props.C07
+open B B.Drive B.Ren B.Ren.Subst B.Props.C17
+
+theorem ok_bind {α β} (a : α) (k : α → Outcome β) : (Outcome.ok a >>= k) = k a := rfl
+
+theorem applyMap_shiftUp (lo n y : Nat) :
+    applyMap (shiftUp lo n) y = if lo ≤ y ∧ y < n then y + 1 else y := by
+  unfold applyMap shiftUp; split <;> rfl
+
+theorem applyMap_shiftDown (x n z : Nat) :
+    applyMap (shiftDown x n) z = if x + 2 ≤ z ∧ z ≤ n then z - 1 else z := by
+  unfold applyMap shiftDown; split <;> rfl
+
+/-- the two shifting steps applied to an operand: `set_num_vars(n+1)` then `rename_variables(shift)` -/
+theorem shift_operand (b : Arr) (n lo : Nat) (hb : WFo b n) :
+    setNumVars b (n + 1) = .ok (setTerm (n + 1) b) ∧
+    renameVariables (setTerm (n + 1) b) (shiftUp lo n) =
+      .ok (mapVars (applyMap (shiftUp lo n)) (setTerm (n + 1) b)) ∧
+    WFo (mapVars (applyMap (shiftUp lo n)) (setTerm (n + 1) b)) (n + 1) ∧
+    (∀ v, evalArr (mapVars (applyMap (shiftUp lo n)) (setTerm (n + 1) b)) v =
+      evalArr b (fun y => v (applyMap (shiftUp lo n) y))) := by
+  have hnv : numVars b = n := numVars_of_wf hb
+  have hb' : WFo b (numVars b) := by rw [hnv]; exact hb
+  have hs := supportSet_lt hb
+  obtain ⟨e1, k1⟩ := (set_num_vars_safe b (n + 1) hb').1 (fun y hy => by have := hs y hy; omega)
+  have hadm : Admissible (setTerm (n + 1) b) (applyMap (shiftUp lo n)) := by
+    rw [Admissible, supportSet_setTerm, k1.count]
+    constructor
+    · intro y hy; have := hs y hy; rw [applyMap_shiftUp]; split <;> omega
+    · intro y hy z hz hyz
+      have := hs y hy; have := hs z hz
+      rw [applyMap_shiftUp, applyMap_shiftUp]; split <;> split <;> omega
+  have hv1 : WFo (setTerm (n + 1) b) (numVars (setTerm (n + 1) b)) := by rw [k1.count]; exact k1.valid
+  obtain ⟨e2, k2⟩ := (rename_variables_safe (setTerm (n + 1) b) (shiftUp lo n) hv1).1 hadm
+  rw [k1.count] at k2
+  refine ⟨e1, e2, k2.valid, ?_⟩
+  intro v
+  rw [k2.den v, k1.den]
+
+/-- **C07.** `substitute` never panics (below the `u16` limit) and computes the composition. -/
+theorem substitute_spec (f g : Arr) (n x : Nat) (hf : WFo f n) (hg : WFo g n) (hn : n + 1 < 65536) :
+    ∃ r, substitute f x g = .ok r ∧ WFo r n ∧
+      ∀ v, evalArr r v = evalArr f (upd v x (evalArr g v)) := by
+  have hnf : numVars f = n := numVars_of_wf hf
+  have hng : numVars g = n := numVars_of_wf hg
+  by_cases hxf : x ∈ supportSet f
+  swap
+  · -- the variable does not occur: `self.clone()`
+    refine ⟨f, ?_, hf, fun v => (evalArr_upd_of_not_mem f x hxf v _).symm⟩
+    have : (supportSet f).contains x = false := by simpa using hxf
+    simp only [substitute, this, Bool.not_false, if_true]
+  have hx : x < n := supportSet_lt hf x hxf
+  have hcf : (supportSet f).contains x = true := by simpa using hxf
+  by_cases hxg : x ∈ supportSet g
+  swap
+  · -- safe path
+    have hcg : (supportSet g).contains x = false := by simpa using hxg
+    obtain ⟨hiw, hiden⟩ := iff_var_spec g n x hg hx
+    obtain ⟨hw, _, hden⟩ := exists_and_spec f _ n x hf hiw hx
+    refine ⟨_, ?_, hw, ?_⟩
+    · simp only [substitute, hcf, hcg, Bool.not_true, Bool.not_false, Bool.false_eq_true, if_false, if_true,
+        binaryOpWithExistsO, hnf, numVars_of_wf hiw, ne_eq, not_true_eq_false]
+    · intro v
+      rw [hden v, hiden, hiden]
+      rw [evalArr_upd_of_not_mem g x hxg, evalArr_upd_of_not_mem g x hxg]
+      have e : ∀ b, upd v x b x = b := by intro b; simp [upd]
+      rw [e, e]
+      exact subst_bool (fun b => evalArr f (upd v x b)) (evalArr g v)
+  -- clash path
+  have hcg : (supportSet g).contains x = true := by simpa using hxg
+  obtain ⟨ef1, ef2, hf2, dfden⟩ := shift_operand f n x hf
+  obtain ⟨eg1, eg2, hg2, dgden⟩ := shift_operand g n (x + 1) hg
+  obtain ⟨hiw, hiden⟩ := iff_var_spec _ (n + 1) (x + 1) hg2 (by omega)
+  obtain ⟨hsw, hsno, hsden⟩ := exists_and_spec _ _ (n + 1) (x + 1) hf2 hiw (by omega)
+  -- names for the intermediate diagrams
+  generalize hF2 : mapVars (applyMap (shiftUp x n)) (setTerm (n + 1) f) = F2 at ef2 hf2 dfden hiw hiden hsw hsno hsden
+  generalize hG2 : mapVars (applyMap (shiftUp (x + 1) n)) (setTerm (n + 1) g) = G2 at eg2 hg2 dgden hiw hiden hsw hsno hsden
+  generalize hI : applyWithFlip (mkVar (n + 1) (x + 1)) G2 Gen.iff_ none none none = I at hiw hiden hsw hsno hsden
+  generalize hS : binaryOpWithExists F2 I Gen.and_ [x + 1] = S at hsw hsno hsden
+  have hnS : numVars S = n + 1 := numVars_of_wf hsw
+  have hsS := supportSet_lt hsw
+  -- reverse renaming
+  have hadm : Admissible S (applyMap (shiftDown x n)) := by
+    rw [Admissible, hnS]
+    constructor
+    · intro y hy; have := hsS y hy; rw [applyMap_shiftDown]; split <;> omega
+    · intro y hy z hz hyz
+      have := hsS y hy; have := hsS z hz
+      have : y ≠ x + 1 := fun h => hsno (h ▸ hy)
+      have : z ≠ x + 1 := fun h => hsno (h ▸ hz)
+      rw [applyMap_shiftDown, applyMap_shiftDown]; split <;> split <;> omega
+  have hS' : WFo S (numVars S) := by rw [hnS]; exact hsw
+  obtain ⟨er, kr⟩ := (rename_variables_safe S (shiftDown x n) hS').1 hadm
+  rw [hnS] at kr
+  generalize hS1 : mapVars (applyMap (shiftDown x n)) S = S1 at er kr
+  have hnS1 : numVars S1 = n + 1 := kr.count
+  have hS1' : WFo S1 (numVars S1) := by rw [hnS1]; exact kr.valid
+  have hlt1 : ∀ y ∈ supportSet S1, y < n := by
+    intro y hy
+    rw [← hS1] at hy
+    obtain ⟨z, hz, rfl⟩ := (supportSet_mapVars_mem _ S y).mp hy
+    have := hsS z hz
+    have : z ≠ x + 1 := fun h => hsno (h ▸ hz)
+    rw [applyMap_shiftDown]; split <;> omega
+  obtain ⟨e9, k9⟩ := (set_num_vars_safe S1 n hS1').1 hlt1
+  refine ⟨setTerm n S1, ?_, k9.valid, ?_⟩
+  · have hnF2 : numVars F2 = n + 1 := numVars_of_wf hf2
+    have hnI : numVars I = n + 1 := numVars_of_wf hiw
+    have h1 : ¬ 65536 ≤ n + 1 := by omega
+    have h3 : ¬ n + 1 = 0 := by omega
+    simp only [substitute, hcf, hcg, Bool.not_true, Bool.false_eq_true, if_false, hnf, hng, h1, ef1, ok_bind,
+      ef2, hx, not_true_eq_false, eg1, eg2, hnF2, hI, binaryOpWithExistsO, hnI, ne_eq, hS, er, hnS1, h3,
+      Nat.add_sub_cancel, e9]
+  · intro v
+    rw [k9.den v, kr.den, hsden]
+    rw [hiden, hiden, dfden, dfden, dgden, dgden]
+    -- the shifted valuations agree with `v[x := b]` resp. `v` on the first `n` variables
+    have eF : ∀ b, evalArr f (fun y => upd (fun z => v (applyMap (shiftDown x n) z)) (x + 1) b
+        (applyMap (shiftUp x n) y)) = evalArr f (upd v x b) := by
+      intro b
+      apply evalArr_congr hf
+      intro y hy
+      simp only [upd, applyMap_shiftUp, applyMap_shiftDown]
+      by_cases h1 : y = x
+      · subst h1; simp [hy]
+      · by_cases h2 : x ≤ y
+        · have c1 : x ≤ y ∧ y < n := ⟨h2, hy⟩
+          have c2 : ¬ y + 1 = x + 1 := by omega
+          have c3 : x + 2 ≤ y + 1 ∧ y + 1 ≤ n := by omega
+          simp [c1, c2, c3, h1]
+        · have c1 : ¬ (x ≤ y ∧ y < n) := by omega
+          have c2 : ¬ y = x + 1 := by omega
+          have c3 : ¬ (x + 2 ≤ y ∧ y ≤ n) := by omega
+          simp [c1, c2, c3, h1]
+    have eG : ∀ b, evalArr g (fun y => upd (fun z => v (applyMap (shiftDown x n) z)) (x + 1) b
+        (applyMap (shiftUp (x + 1) n) y)) = evalArr g v := by
+      intro b
+      apply evalArr_congr hg
+      intro y hy
+      simp only [upd, applyMap_shiftUp, applyMap_shiftDown]
+      by_cases h2 : x + 1 ≤ y
+      · have c1 : x + 1 ≤ y ∧ y < n := ⟨h2, hy⟩
+        have c2 : ¬ y + 1 = x + 1 := by omega
+        have c3 : x + 2 ≤ y + 1 ∧ y + 1 ≤ n := by omega
+        simp [c1, c2, c3]
+      · have c1 : ¬ (x + 1 ≤ y ∧ y < n) := by omega
+        have c2 : ¬ y = x + 1 := by omega
+        have c3 : ¬ (x + 2 ≤ y ∧ y ≤ n) := by omega
+        simp [c1, c2, c3]
+    rw [eF, eF, eG, eG]
+    have e : ∀ b, upd (fun z => v (applyMap (shiftDown x n) z)) (x + 1) b (x + 1) = b := by
+      intro b; simp [upd]
+    rw [e, e]
+    exact subst_bool (fun b => evalArr f (upd v x b)) (evalArr g v)
+
+/-! ## Non-vacuity -/
+
+/-- `f = ¬x0 ∧ ¬x2`, `g = ¬x0 ∧ ¬x1 ∧ ¬x2`, `x = x0` over 3 variables — the operands on which the code
+    before commit 772e69f returned `x0 ∧ ¬x2` -/
+def exF : Arr := #[⟨3, 0, 0⟩, ⟨3, 1, 1⟩, ⟨2, 1, 0⟩, ⟨0, 2, 0⟩]
+def exG : Arr := #[⟨3, 0, 0⟩, ⟨3, 1, 1⟩, ⟨2, 1, 0⟩, ⟨1, 2, 0⟩, ⟨0, 3, 0⟩]
+theorem exF_wf : WFo exF 3 := wfoB_sound (by decide)
+theorem exG_wf : WFo exG 3 := wfoB_sound (by decide)
+
+/-- the hypotheses of `substitute_spec` hold for the clash-path operands of the fixed defect, and the
+    function it pins down there is `(x0 ∨ x1) ∧ ¬x2` -/
+example : ∃ r, substitute exF 0 exG = .ok r ∧ WFo r 3 ∧
+    ∀ v, evalArr r v = evalArr exF (upd v 0 (evalArr exG v)) :=
+  substitute_spec exF exG 3 0 exF_wf exG_wf (by omega)
+example : 0 ∈ supportSet exF ∧ 0 ∈ supportSet exG := by decide
+example : (List.range 8).map (fun i => evalArr exF (upd (valOfIndex 3 i) 0 (evalArr exG (valOfIndex 3 i)))) =
+    [false, false, true, false, false, false, true, false] := by decide
+
 end B.Props.C07
